@@ -114,6 +114,12 @@ impl Executor {
         self.pc
     }
 
+    /// Depth of the loop stack, for external verification harnesses. Only compiled with `--cfg melstf_verif`.
+    #[cfg(melstf_verif)]
+    pub fn verif_loop_depth(&self) -> usize {
+        self.loop_state.len()
+    }
+
     /// Update program pointer state (for loops etc)
     fn update_pc_state(&mut self) {
         while let Some(mut state) = self.loop_state.pop() {
